@@ -134,6 +134,14 @@ def undefined_externals(objs):
                   and not s.startswith("__tsan") and not s.startswith("__sanitizer") and s != "_GLOBAL_OFFSET_TABLE_")
 
 
+def rename_writable_sections(objs):
+    """.data/.bss/.data.rel* of the library objects -> eavdata/eavbss, so that the linker emits __start_/__stop_ symbols:
+    the simulators know where the library's static storage is (pristine reset in C14, reachability in the ledgers)"""
+    for o in objs:
+        run(["objcopy", "--rename-section", ".data=eavdata", "--rename-section", ".bss=eavbss",
+             "--rename-section", ".data.rel=eavdata", "--rename-section", ".data.rel.local=eavdata", o])
+
+
 HIST_WRAPS = ["malloc", "free", "calloc", "realloc", "strndup", "strdup", "abort", "__assert_fail"]
 
 
@@ -149,6 +157,7 @@ def build_hist(backend, extra=False, flags=False):
     defs = (["-DEAV_EXTRA"] if extra else []) + (FLAG_DEFS if flags else [])
     objs = compile_lib(d, backend, ASAN, defs)
     ext = undefined_externals(objs)
+    rename_writable_sections(objs)
     inc = ["-I" + os.path.join(REPO, "include"), "-I" + REPO] + BACKEND_DEFS[backend] + defs
     sim = os.path.join(VERIF, "sim")
     jobs = []
@@ -210,6 +219,7 @@ def build_cli():
     sim_o = os.path.join(d, "cli_sim.o")
     jobs.append([CXX, "-std=c++17", "-Wall"] + ASAN + inc + ["-c", os.path.join(VERIF, "sim/cli/cli_sim.cpp"), "-o", sim_o])
     compile_many(jobs, {2})
+    rename_writable_sections(objs + [main_o, dec_o])
     # an independent copy of the WHOLE library (with its own decoder) for the reference model: every global it
     # defines is renamed ref_<name>, so the oracle's verdicts cannot be influenced by the tool's interposing symbols
     rd = os.path.join(d, "ref")
@@ -256,9 +266,7 @@ def build_sched(variant="", defs=()):
     tsan = ["-O1", "-g", "-gdwarf-4", "-fsanitize=thread", "-fno-builtin", "-fno-omit-frame-pointer"]
     objs = compile_lib(d, "idn2", tsan, list(defs))
     ext = undefined_externals(objs)
-    for o in objs:
-        run(["objcopy", "--rename-section", ".data=eavdata", "--rename-section", ".bss=eavbss",
-             "--rename-section", ".data.rel=eavdata", "--rename-section", ".data.rel.local=eavdata", o])
+    rename_writable_sections(objs)
     sim = os.path.join(VERIF, "sim")
     inc = ["-I" + os.path.join(REPO, "include"), "-I" + REPO, "-DHAVE_LIBIDN2"] + list(defs)
     plain = ["-O1", "-g", "-gdwarf-4", "-fno-omit-frame-pointer", "-fPIC"]
